@@ -189,7 +189,8 @@ static bool instance(const Row& row, int mode, const std::vector<char>& kinds, i
     case 0: return build_instance(row, mode, kinds, 0, false, ob);
     case 1: return build_instance(row, mode, kinds, 1, anyImp, ob);
     case 2: if (!f.k) return false; build_instance(row, mode, kinds, 0, false, ob); ob.k = 1; return true;
-    case 3: if (!f.k || !f.z) return false; build_instance(row, mode, kinds, 1, false, ob); ob.k = 2; ob.z = 1; return true;
+    case 3: if (!f.k || !f.z || kinds.empty() || kinds[0] == 'm') return false;      // zeroing-masking needs a register destination (SDM 2.7: EVEX.z with a memory destination is #UD)
+            build_instance(row, mode, kinds, 1, false, ob); ob.k = 2; ob.z = 1; return true;
     case 4: if (hasMem || !(f.er || f.sae)) return false; build_instance(row, mode, kinds, 0, false, ob); if (f.er) ob.er = 1; else ob.sae = 1; return true;
     case 5: {
       if (rmMem < 0 || f.ops[rmMem].bcst <= 0 || f.ops[rmMem].msz <= 0) return false;
